@@ -387,24 +387,37 @@ impl OrdSpecImpl for Version { open spec fn obeys_cmp_spec() -> bool { true } op
             g.lost_hints.append('%s: all in-body annotations dropped (they no longer fit the code)' % name)
             hint = '{\n'
         return 'pub fn ' + name + sig + '\n' + '\n'.join(grid) + '\n' + hint + head + sl.text + tail + '\n}\n'
-    g.unit('caret_desugar', lambda: g.emit('m_desugar', lifted('caret_desugar', '(parsed: Partial) -> (r: Option<BoundSet>)', K.grid_caret(), closure_match(RNG, 'caret', '|parsed| match parsed', 'closure in caret()'))))
-    g.unit('partial_desugar', lambda: g.emit('m_desugar', lifted('partial_desugar', '(partial: Partial) -> (r: Option<BoundSet>)', K.grid_partial(), closure_match(RNG, 'partial', '|partial| match partial', 'closure in partial()'))))
-    g.unit('tilde_desugar', lambda: g.emit('m_desugar', lifted('tilde_desugar', '(parsed: (Option<&str>, Partial)) -> (r: Option<BoundSet>)', K.grid_tilde(), closure_match(RNG, 'tilde', '|parsed| match parsed', 'closure in tilde()'))))
+    def u_caret():
+        sl = closure_match(RNG, 'caret', None, 'closure in caret()')
+        g.emit('m_desugar', lifted('caret_desugar', '(%s: Partial) -> (r: Option<BoundSet>)' % sl.param, K.grid_caret(sl.param), sl))
+    g.unit('caret_desugar', u_caret)
+
+    def u_partial():
+        sl = closure_match(RNG, 'partial', None, 'closure in partial()')
+        g.emit('m_desugar', lifted('partial_desugar', '(%s: Partial) -> (r: Option<BoundSet>)' % sl.param, K.grid_partial(sl.param), sl))
+    g.unit('partial_desugar', u_partial)
+
+    def u_tilde():
+        sl = closure_match(RNG, 'tilde', None, 'closure in tilde()')
+        g.emit('m_desugar', lifted('tilde_desugar', '(%s: (Option<&str>, Partial)) -> (r: Option<BoundSet>)' % sl.param, K.grid_tilde(sl.param), sl))
+    g.unit('tilde_desugar', u_tilde)
     for op in K.OPS:
         def u_prim(op=op):
-            prim_m = closure_match(RNG, 'primitive', '|parsed| match parsed', 'closure in primitive()')
-            prim_m.rewrites.append('checked once per operator (requires parsed.0 == Operation::%s)' % op)
-            g.emit('m_desugar', lifted('primitive_desugar_' + op, '(parsed: (Operation, Partial)) -> (r: Option<BoundSet>)', K.grid_primitive(op), prim_m,
-                                       hint=K.DESUGAR_HINT_LE if op == 'LessThanEquals' else K.DESUGAR_HINT, head='use Operation::*;\n'))
+            prim_m = closure_match(RNG, 'primitive', None, 'closure in primitive()')
+            prim_m.rewrites.append('checked once per operator (requires <param>.0 == Operation::%s)' % op)
+            g.emit('m_desugar', lifted('primitive_desugar_' + op, '(%s: (Operation, Partial)) -> (r: Option<BoundSet>)' % prim_m.param, K.grid_primitive(op, prim_m.param), prim_m,
+                                       hint=K.desugar_hint_le(prim_m.param) if op == 'LessThanEquals' else K.DESUGAR_HINT, head='use Operation::*;\n'))
         g.unit('primitive_desugar_' + op, u_prim)
 
     def u_hyphen():
-        hy = between(RNG, 'hyphen', 'let upper = match upper', 'Ok(bounds)', 'block in hyphen::parser')
         hyf = top_fn(RNG, 'hyphen').verbatim
-        if not re.search(r'let lower = opt\(partial_version\)\.parse_next\(input\)\?;.*?let upper = partial_version\(input\)\?;\s*let upper = match upper', hyf, re.S):
-            raise AnchorLost('hyphen::parser: lower = opt(partial_version), upper = partial_version')
+        mm = re.search(r'let (\w+) = opt\(partial_version\)\.parse_next\(input\)\?;.*?let (\w+) = partial_version\(input\)\?;\s*let \2 = match \2 \{.*?\n\s*Ok\((\w+)\)\s*\}', hyf, re.S)
+        if not mm:
+            raise AnchorLost('hyphen::parser: lower = opt(partial_version), upper = partial_version, .. Ok(bounds)')
+        lo, up, bd = mm.group(1), mm.group(2), mm.group(3)
+        hy = between(RNG, 'hyphen', 'let %s = match %s' % (up, up), 'Ok(%s)' % bd, 'block in hyphen::parser')
         g.pins.append('hyphen::parser: lower = opt(partial_version), upper = partial_version, result Ok(bounds)')
-        g.emit('m_desugar', lifted('hyphen_desugar', '(lower: Option<Partial>, upper: Partial) -> (r: Option<BoundSet>)', K.grid_hyphen(), hy, tail='\n bounds'))
+        g.emit('m_desugar', lifted('hyphen_desugar', '(%s: Option<Partial>, %s: Partial) -> (r: Option<BoundSet>)' % (lo, up), K.grid_hyphen(lo, up), hy, tail='\n ' + bd))
     g.unit('hyphen_desugar', u_hyphen)
 
     # ---------------------------------------------------------------- m_parse: the two pure closures of the text shell
